@@ -117,7 +117,8 @@ def get_mod_apply_selection_choice(
         removed_nodes |= get_mod_nodes_remove_incompatibilities(graph, confirmed_start_nodes, removed_edges)
     except IncompatibilityError as e:
         removed_nodes |= e.removed_nodes
-        added_edges |= e.edges
+        # Add the marker edges without an explicit key, so they never overwrite a parallel edge of another type
+        added_edges |= {(edge[0], edge[1], edge[-1]) for edge in e.edges}
 
     return removed_edges, removed_nodes, added_edges
 
